@@ -1,0 +1,10 @@
+//go:build verif
+
+package routing
+
+// Exports of unexported pure functions for the external verification harness (tag "verif" only).
+
+func VerifParseRPCName(rpcName string) (svc string, method string, ok bool) {
+	s, m, ok := parseRPCName(rpcName)
+	return string(s), m, ok
+}
